@@ -242,7 +242,9 @@ CHECKS["C09"] = dict(
                 "value) pairs are compared with the logged values in the documented representation (integers exact incl. unsigned >= 2^63, floats "
                 "bit-exact, tags 1/260/261/262/263/63); the run reports which length / width boundaries were observed."),
     technique="runtime monitoring: independent RFC 8949 parser + documented-representation matcher on writer bytes of the binary build",
-    stages=lambda tier: [dict(variant="vh-bin", cmd="c09", shards=16, timeout=3000)],
+    stages=lambda tier: [dict(variant="vh-bin", cmd="c09", shards=16, timeout=3000),
+                         dict(variant="vh-bin", cmd="c09-runes", shards=8, timeout=3000),
+                         dict(variant="vh-bin", cmd="c09-lengths", shards=4, timeout=3000)],
     rule=("one case = one seeded modelled program (settings x derivation chain x events x nested field calls) run under binary_log; non-trivial = wrote "
           "an event and has a container; distinct by hash of (settings, event bytes)"),
     assumptions=["nil may be encoded as simple value 22 or as embedded JSON null (tag 262), both decode to null",
@@ -494,6 +496,8 @@ _ADD = {
     "C05": " The slice handed to Hook(...) is overwritten by the caller right after the call.",
     "C12": " One run in eight contains a zero-length message (Write(nil) / Write([]byte{})).",
     "C10": " One run in eight contains a zero-length message.",
+    "C09": " Exhaustive sweeps read with the independent parser: every code point (text strings carry the logged bytes verbatim, byte strings "
+           "the logged bytes) and every length 0..1100 and around 2^16 for keys, text, bytes, hex (tag 263), messages and typed slices.",
     "C11": " One run in eight contains a zero-length message; in a quarter of the runs two goroutines call Close at once (whichever returns "
            "first, the backlog has been delivered or reported); one run in sixteen writes nothing at all.",
     "C13": " Events also start with Logger.Panic() (recovered) and WithLevel(Fatal/Panic)."
@@ -516,3 +520,4 @@ CHECKS["C13"].setdefault("require", {})["loggers_derived_while_sampling_disabled
 CHECKS["C02"]["require"]["code_points_logged"] = 1114112
 CHECKS["C08"].setdefault("require", {})["code_points_logged"] = 1114112
 CHECKS["C18"].setdefault("require", {})["rounds_with_a_logger_in_the_base_context"] = 20
+CHECKS["C09"]["require"]["code_points_logged"] = 1114112
